@@ -33,7 +33,7 @@ class Profile:
     """Which choice points a FakePort offers, and their alternatives (beyond the default)."""
 
     def __init__(self, write_exc=(), read_exc=(), latency=(0,), content=(), silent=False,
-                 read_window=3, close_exc=False, late=None):
+                 read_window=3, close_exc=False, late=None, blank=()):
         self.write_exc = tuple(write_exc)
         self.read_exc = tuple(read_exc)
         self.latency = tuple(latency)        # first entry must be 0
@@ -42,6 +42,8 @@ class Profile:
         self.read_window = read_window       # read-fault points offered at the first N reads
         self.close_exc = close_exc           # of each request (and at the retry limit reads)
         self.late = late                     # set of per-request read indexes also offered
+        self.blank = tuple(blank)            # what an "empty" read may look like besides b"":
+        #                                      a bare line end (a blank line from the board)
         assert self.latency[0] == 0
 
 
@@ -72,12 +74,13 @@ def mutate_line(kind, line, req_name):
 
 
 class Line:
-    __slots__ = ("text", "delay", "req", "mutated", "orig_delay")
+    __slots__ = ("text", "delay", "req", "mutated", "orig_delay", "blank")
 
     def __init__(self, text, delay, req, mutated):
         self.text = text
         self.delay = delay
         self.orig_delay = delay
+        self.blank = None
         self.req = req
         self.mutated = mutated
 
@@ -182,6 +185,12 @@ class FakePort:
         head = self.queue[0]
         if head.delay > 0:
             head.delay -= 1
+            if self.profile.blank:
+                if head.blank is None:      # one choice per reply line: how its empty reads look
+                    choice = self._choose(f"q{head.req}.blank", 1 + len(self.profile.blank),
+                                          "blank", ("",) + self.profile.blank)
+                    head.blank = self.profile.blank[choice - 1] if choice else ""
+                return head.blank.encode("ascii")
             return b""
         self.queue.pop(0)
         self.ledger.append((head.req, self.req_id, head.text))
